@@ -335,7 +335,7 @@ func (vc *FnVC) loopRangeKey(l *Loop) types.Type {
 func newFnVC(w *World, fn *ssa.Function, mode string) *FnVC {
 	vc := &FnVC{w: w, e: newEnc(), fn: fn, name: shortFuncName(fn), vals: map[ssa.Value]Term{}, tuples: map[ssa.Value][]Term{},
 		blockLit: map[*ssa.BasicBlock]Term{}, memOut: map[*ssa.BasicBlock]*Mem{}, counters: map[string]int{},
-		closures: map[ssa.Value]*ssa.MakeClosure{}, callOrd: map[string]int{}, rangeMap: map[*ssa.Range]string{}, trustedUsed: map[string]bool{}, mode: mode}
+		closures: map[ssa.Value]*ssa.MakeClosure{}, callOrd: map[string]int{}, rangeMap: map[*ssa.Range]string{}, trustedUsed: map[string]bool{}, matchedSites: map[string]bool{}, mode: mode}
 	vc.ct = w.contractFor(fn)
 	if fn.Pkg != nil {
 		vc.cf = w.contracts[fn.Pkg.Pkg.Path()]
